@@ -1,6 +1,8 @@
 package main
 
 import (
+	"strconv"
+	"regexp"
 	"fmt"
 	"go/ast"
 	"go/token"
@@ -131,10 +133,23 @@ func (e *Engine) setDB(db *ContractDB) {
 }
 
 // findFunc locates the ssa function for a contract key.
+var closureNameRe = regexp.MustCompile(`^(.*)__closure([0-9]+)$`)
+
 func (e *Engine) findFunc(c *Contract) *ssa.Function {
 	p := e.spkgs[c.PkgPath]
 	if p == nil {
 		return nil
+	}
+	// F__closureN: the N-th function literal of F (in source order)
+	if m := closureNameRe.FindStringSubmatch(c.Name); m != nil {
+		outer := *c
+		outer.Name = m[1]
+		fn := e.findFunc(&outer)
+		n, _ := strconv.Atoi(m[2])
+		if fn == nil || n < 1 || n > len(fn.AnonFuncs) {
+			return nil
+		}
+		return fn.AnonFuncs[n-1]
 	}
 	if c.RecvType == "" {
 		return p.Func(c.Name)
@@ -449,7 +464,11 @@ func (e *Engine) genFunc(c *Contract, fn *ssa.Function, mode Mode, known map[str
 	vc.replay = &replayInfo{fn: fn, mode: mode}
 	e.registerInputs(fn, fr.params, st)
 	for _, fv := range fn.FreeVars {
-		fr.params = append(fr.params, e.freshSV(fv.Type(), "fv_"+fv.Name(), "true", st))
+		v := e.freshSV(fv.Type(), "fv_"+fv.Name(), "true", st)
+		if p, ok := v.(*PtrSV); ok && p.Kind == pkHeap {
+			vc.assume("true", fmt.Sprintf("(not (= %s 0))", p.Ref)) // a captured variable exists
+		}
+		fr.params = append(fr.params, v)
 	}
 	fr.entry = st.clone()
 	e.entryState = fr.entry
